@@ -418,6 +418,20 @@ func init() {
 	}
 	identity := func(f *Frame, ns *nodeState, x *ssa.Call, fn *ssa.Function, args []Val) []Val { return []Val{args[0]} }
 	externals["(github.com/go-spatial/geom.Polygon).LinearRings"] = identity
+	externals["math/bits.Mul64"] = func(f *Frame, ns *nodeState, x *ssa.Call, fn *ssa.Function, args []Val) []Val {
+		ex := f.ex
+		a, b := args[0].T, args[1].T
+		if a.Sort.Kind != KInt {
+			ex.fail("bits.Mul64 outside integer mode")
+		}
+		hi := ex.vc.Declare(f.prefix+"mulhi", SInt)
+		lo := ex.vc.Declare(f.prefix+"mullo", SInt)
+		two64 := IntLit(new(bigInt).Lsh(bigOne, 64), SInt)
+		zero := IntLit64(0, SInt)
+		ex.vc.Assume(And(leT(zero, hi), ltT(hi, two64), leT(zero, lo), ltT(lo, two64),
+			Eq(App(SInt, "+", App(SInt, "*", hi, two64), lo), App(SInt, "*", a, b))), "bits.Mul64: hi*2^64 + lo == x*y")
+		return []Val{{T: hi}, {T: lo}}
+	}
 	externals["math.Abs"] = func(f *Frame, ns *nodeState, x *ssa.Call, fn *ssa.Function, args []Val) []Val {
 		a := args[0].T
 		return []Val{{T: Ite(leT(IntLit64(0, SReal), a), a, App(SReal, "-", a))}}
